@@ -31,7 +31,7 @@ CONCRETE = {
     'r_none': {'a': None, 'b': None}, 'r_a1': {'a': 1, 'b': None}, 'r_deep': {'a': 1, 'b': _DEEP_ARR[1]}, 'r_deep64': {'a': 1, 'b': _DEEP64[1]},
     'r_one_a1': {'a': 1, 'only': 'one'},
     'c_m32700': -32700, 'c_m32600': -32600, 'c_m32601': -32601, 'c_m32602': -32602,
-    'c_m32603': -32603, 'c_m32000': -32000, 'c_m32050': -32050, 'c_2001': 2001,
+    'c_m32603': -32603, 'c_m32000': -32000, 'c_m32050': -32050, 'c_2001': 2001, 'c_2002': 2002,
 }
 
 
